@@ -2,6 +2,7 @@ package keeper
 
 import (
 	markettypes "github.com/SaoNetwork/sao/x/market/types"
+	nodetypes "github.com/SaoNetwork/sao/x/node/types"
 	ordertypes "github.com/SaoNetwork/sao/x/order/types"
 	sdk "github.com/cosmos/cosmos-sdk/types"
 )
@@ -20,9 +21,9 @@ func (k Keeper) HandleTimeoutOrder(ctx sdk.Context, orderId uint64) {
 		return
 	}
 
-	if uint64(ctx.BlockHeight())+order.Timeout >= order.CreatedAt+order.Duration {
-		return
-	}
+	// too close to the end of the paid term to hand the shards to new providers:
+	// the unfinished part is settled below instead of being left pending for good
+	tooLate := uint64(ctx.BlockHeight())+order.Timeout >= order.CreatedAt+order.Duration
 
 	var timeoutShards []ordertypes.Shard
 	var uncompletedShards []uint64
@@ -64,10 +65,13 @@ func (k Keeper) HandleTimeoutOrder(ctx sdk.Context, orderId uint64) {
 	log.Debug("order timeout", "orderId", order.Id, "sps", sps)
 
 	// TODO: sp punishment?
-	randSp := k.node.RandomSP(ctx, timeoutCount, sps, int64(order.Size_))
+	var randSp []nodetypes.Node
+	if !tooLate {
+		randSp = k.node.RandomSP(ctx, timeoutCount, sps, int64(order.Size_))
+	}
 
 	if len(randSp) == 0 {
-		if uint64(ctx.BlockHeight())-order.CreatedAt > MaxTries*order.Timeout {
+		if tooLate || uint64(ctx.BlockHeight())-order.CreatedAt > MaxTries*order.Timeout {
 			if order.Status != ordertypes.OrderCompleted {
 				// order timeout , remove shard and cancel order
 				for _, shardId := range order.Shards {
